@@ -53,6 +53,10 @@ def r18_1(ck, F):
               "the number of bytes counted differs from the number of bytes handed to the channel", b.loc(adds[0][0]) if adds else b.loc(0))
 
 
+# named here so that they stay calls in the views (inline.py treats every `a::b` literal of the rule sources as known)
+KEEP_CALLS = ("io::sender::Sender::poll_chunk_size", "io::sender::Sender::poll_complete")
+
+
 def r18_2(ck, F):
     ck.rule("R18.2", "clamp: the write length is a minimum over buf.len(), the remaining announced size (sized mode) and "
             "the chunk size; WriteZero is returned under bytes_written >= expected",
@@ -75,7 +79,7 @@ def r18_2(ck, F):
             wz.append(bb)
     ok = bool(wz)
     for bb in wz:
-        ce = [(switch_expr(b, s), switch_meaning(b, s, v)) for s, tb, v in controlling_edges(b, bb)]
+        ce = conds(b, bb)
         ok = ok and any(e[0] == "bin" and e[1] == "Ge" and "bytes_written" in mir.show(e[2]) and m is True for e, m in ce)
     ck.expect(ok, "poll_write#write-zero", "WriteZero under bytes_written >= expected",
               "over-long writes are not refused with WriteZero when the announced size is reached", b.loc(wz[0]) if wz else b.loc(0))
@@ -114,7 +118,7 @@ def r18_4(ck, F):
             if s["rv"]["r"] != "use" or const_value(b.expr(s["rv"]["o"])) != 1:
                 continue
             n += 1
-            ce = [(switch_expr(b, sw), switch_meaning(b, sw, v)) for sw, tb, v in controlling_edges(b, bb)]
+            ce = conds(b, bb)
             ok = False
             for e, m in ce:
                 sh = mir.show(e)
@@ -187,7 +191,7 @@ def r18_6(ck, F):
         if not (val[0] == "agg" and val[2] == "None"):
             continue
         n += 1
-        ce = [(switch_expr(b, sw), switch_meaning(b, sw, v)) for sw, tb, v in controlling_edges(b, bb)]
+        ce = conds(b, bb)
         ok = any(e[0] == "call" and e[1].endswith("Buf::has_remaining") and m is False for e, m in ce)
         ck.expect(ok, f"poll_read#drop-buffer{n}", "buffer dropped only when nothing remains",
                   f"current_buf is discarded at {b.loc(bb, i)} without has_remaining() being false", b.loc(bb, i))
